@@ -67,6 +67,9 @@ func DecodeStyp(hdr BoxHeader, startPos uint64, r io.Reader) (Box, error) {
 	if err != nil {
 		return nil, err
 	}
+	if len(data) < 8 {
+		return nil, fmt.Errorf("styp: payload size %d less than min size 8", len(data))
+	}
 	b := StypBox{data: data}
 	return &b, nil
 }
